@@ -109,6 +109,8 @@ int main(int argc, char **argv) {
                 }
                 continue;
             }
+            // irr family (every configuration): hashed irregular data for EVERY n in 9..400 (thorough 9..1200, three seeds)
+            for (long n0 = 9; n0 < (thorough ? 1200 : 400); n0 += 49) { Task t; t.cfg = c; t.kind = 12; t.word_lo = n0; t.word_hi = std::min<long>(n0 + 49, thorough ? 1200 : 400); tasks.push_back(t); }
             // randtop family (every configuration): 300 pseudo-randomly spaced keys ending at the largest valid key, 120 (thorough 600) seeds
             for (long w0 = 0; w0 < (thorough ? 600 : 120); w0 += 40) { Task t; t.cfg = c; t.kind = 11; t.word_lo = w0; t.word_hi = w0 + 40; tasks.push_back(t); }
             // span family (every configuration, every integral key type): clusters spread over the whole domain of the key type
@@ -181,8 +183,8 @@ int main(int argc, char **argv) {
                     for (long b = 0; b < ks::NUM_BLOCK_IDS; b += 3) { Task t; t.cfg = c; t.kind = 2; t.nblocks = 2; t.rep = rep; t.b0_lo = b; t.b0_hi = b + 3; tasks.push_back(t); }
             }
         }
-        fam_bounds = thorough ? "; randtop / unitop families (300 and 77 pseudo-randomly spaced keys, and 50..649 keys drawn uniformly from the 1000..20999 values below the reserved one, all ending at the largest valid key; 120 / 600 and 360 / 1800 seeds, every configuration); capacity family (clusters of Epsilon^2+1 keys, every cluster count in a window of 75-150 values: the segment array grows during the construction of an upper level); span family (clusters spread over the whole domain of the key type, 18 cluster counts x 9 end offsets, every configuration); seam family n=32768+{0,1,7}, chunks {2,3,4,5,7,16,19,20}, all 4096 window words at every seam (and at the first/last seam alone); blocks family: 1 block x rep {1,50,400}, 2 blocks x rep {1,20}; density family: all 1024 five-digit words x 300 clusters"
-                              : "; randtop / unitop families (300 and 77 pseudo-randomly spaced keys, and 50..649 keys drawn uniformly from the 1000..20999 values below the reserved one, all ending at the largest valid key; 120 / 600 and 360 / 1800 seeds, every configuration); capacity family (clusters of Epsilon^2+1 keys, every cluster count in a window of 75-150 values: the segment array grows during the construction of an upper level); span family (clusters spread over the whole domain of the key type, 11 cluster counts x 9 end offsets, every configuration); seam family n=32768, chunks {2,20}, all 4096 window words at every seam; blocks family: 1 block x rep {1,50}, 2 blocks x rep 1; density family (also placed at 3/4 of the key domain and, for signed keys, at 3/4 of the negative half, for three words; single blocks of 4090..4101 and 8186..8197 clusters; a stretch member: 74,000 clusters, one run of 3,680,000 consecutive keys, 6,000 clusters): all 256 four-digit words of gap multipliers x 300 clusters (several segments per upper level), skewed variants with a 3x/30x jump, and 44000-cluster variants (plain, and 'chunk-tail' with a key-space jump 1/3 clusters before every chunk boundary over a zig-zag background) whose upper levels are built by the chunked builder; long-run family: a duplicate run from around a chunk start to around a chunk end, every start/end offset; two-run family: a run ending 1..3 slots before a chunk end followed by a run that starts on the last slot and continues into the next chunk";
+        fam_bounds = thorough ? "; irr family (hashed irregular keys with duplicates, power-of-two gaps and jumps for every n in 9..400 / 9..1200, every configuration); randtop / unitop families (300 and 77 pseudo-randomly spaced keys, and 50..649 keys drawn uniformly from the 1000..20999 values below the reserved one, all ending at the largest valid key; 120 / 600 and 360 / 1800 seeds, every configuration); capacity family (clusters of Epsilon^2+1 keys, every cluster count in a window of 75-150 values: the segment array grows during the construction of an upper level); span family (clusters spread over the whole domain of the key type, 18 cluster counts x 9 end offsets, every configuration); seam family n=32768+{0,1,7}, chunks {2,3,4,5,7,16,19,20}, all 4096 window words at every seam (and at the first/last seam alone); blocks family: 1 block x rep {1,50,400}, 2 blocks x rep {1,20}; density family: all 1024 five-digit words x 300 clusters"
+                              : "; irr family (hashed irregular keys with duplicates, power-of-two gaps and jumps for every n in 9..400 / 9..1200, every configuration); randtop / unitop families (300 and 77 pseudo-randomly spaced keys, and 50..649 keys drawn uniformly from the 1000..20999 values below the reserved one, all ending at the largest valid key; 120 / 600 and 360 / 1800 seeds, every configuration); capacity family (clusters of Epsilon^2+1 keys, every cluster count in a window of 75-150 values: the segment array grows during the construction of an upper level); span family (clusters spread over the whole domain of the key type, 11 cluster counts x 9 end offsets, every configuration); seam family n=32768, chunks {2,20}, all 4096 window words at every seam; blocks family: 1 block x rep {1,50}, 2 blocks x rep 1; density family (also placed at 3/4 of the key domain and, for signed keys, at 3/4 of the negative half, for three words; single blocks of 4090..4101 and 8186..8197 clusters; a stretch member: 74,000 clusters, one run of 3,680,000 consecutive keys, 6,000 clusters): all 256 four-digit words of gap multipliers x 300 clusters (several segments per upper level), skewed variants with a 3x/30x jump, and 44000-cluster variants (plain, and 'chunk-tail' with a key-space jump 1/3 clusters before every chunk boundary over a zig-zag background) whose upper levels are built by the chunked builder; long-run family: a duplicate run from around a chunk start to around a chunk end, every start/end offset; two-run family: a run ending 1..3 slots before a chunk end followed by a run that starts on the last slot and continues into the next chunk";
     }
 
     if (asan_quick) std::stable_sort(tasks.begin(), tasks.end(), [](const Task &a, const Task &b) { return (a.kind != 0) > (b.kind != 0); });   // few large-input cases first
@@ -207,6 +209,12 @@ int main(int argc, char **argv) {
         } else if (t.kind == 6) {
             for (long c = t.word_lo; c < t.word_hi && !run.deadline_passed(); ++c) {
                 ks::FamilySpec s; s.kind = "density"; s.chunks = 1; s.rep = c; s.width = 1; s.word = c % 4;
+                e.family(run, cn, prop, s);
+            }
+        } else if (t.kind == 12) {
+            for (long n = t.word_lo; n < t.word_hi && !run.deadline_passed(); ++n) for (long sd : (opt.tier == "thorough" ? std::vector<long>{n % 5, 5 + n % 7, 12 + n % 3} : std::vector<long>{n % 5})) {
+                ks::FamilySpec s; s.kind = "irr"; s.chunks = 1; s.rep = n; s.word = sd;
+                if (n == 64) run.sample(std::string("cfg=") + e.name + " family=" + s.str());
                 e.family(run, cn, prop, s);
             }
         } else if (t.kind == 11) {
